@@ -363,15 +363,50 @@ class SchemaGen:
             return self.defined[full][1], full
         return t, None
 
+    def _shallow_fits(self, d, t, ns):
+        """Could the JSON value d be a default of type t, judged by its JSON type
+        (strings: also the fixed size and the enum symbols)."""
+        if isinstance(t, list):
+            return any(self._shallow_fits(d, b, ns) for b in t)
+        if isinstance(t, str) and t not in PRIMS:
+            try:
+                t, _full = self._resolve(t, ns)
+            except KeyError:
+                return True
+        k = t if isinstance(t, str) else t["type"]
+        if d is None:
+            return k == "null"
+        if isinstance(d, bool):
+            return k == "boolean"
+        if isinstance(d, int):
+            return k in ("int", "long", "float", "double")
+        if isinstance(d, float):
+            return k in ("float", "double")
+        if isinstance(d, str):
+            if k == "fixed":
+                return t["size"] == len(d)
+            if k == "enum":
+                return d in t["symbols"]
+            return k in ("string", "bytes")
+        if isinstance(d, list):
+            return k == "array"
+        if isinstance(d, dict):
+            return k in ("record", "error", "map")
+        return False
+
     def _default_for(self, t, ns, depth=0):
         r = self.rng
         if isinstance(t, list):
             if self.o["union_default_any"] and r.random() < 0.3:
-                b = r.choice(t)
-                self.features.add("union_default_nonfirst")
-            else:
-                b = t[0]
-            return self._default_for(b, ns, depth)
+                i = r.randrange(len(t))
+                d = self._default_for(t[i], ns, depth)
+                # a default meant for branch i must not already fit an earlier branch by its
+                # JSON type (the specification gives it to the first branch it matches)
+                if d is not _NONE and not any(self._shallow_fits(d, t[j], ns) for j in range(i)):
+                    if i:
+                        self.features.add("union_default_nonfirst")
+                    return d
+            return self._default_for(t[0], ns, depth)
         full = None
         if isinstance(t, str) and t not in PRIMS:
             ref_full = t if "." in t else (ns + "." + t if ns else t)
